@@ -8,22 +8,6 @@ From OgRek Require Import Base Float Value PyEq BaseFacts FloatFacts.
 Import ListNotations.
 Open Scope N_scope.
 
-(* the hashable keys (well-formed: Go integers in their type's range, floats as 64-bit patterns).
-   The name is historical: the predicate once excluded floats. *)
-Definition wfb (f : N) : bool := (f <? 18446744073709551616)%N.
-Fixpoint nf_key (v : val) : bool :=
-  match v with
-  | VNone | VBool _ | VStr _ | VBStr _ | VBytes _ | VClass _ _ | VUser _ | VBig _ _ => true
-  | VInt z => in_int64 z
-  | VUint z => in_uint64 z
-  | VFloat f => wfb f
-  | VComplex re im => wfb re && wfb im
-  | VTuple l => forallb nf_key l
-  | VCall _ _ l => forallb nf_key l
-  | VRef p => nf_key p
-  | _ => false
-  end.
-
 Lemma all2_ext : forall (P : val -> bool) (f g : val -> val -> bool) l1,
   Forall (fun x => forall y, P x = true -> P y = true -> f x y = g x y) l1 ->
   forall l2, forallb P l1 = true -> forallb P l2 = true -> all2 f l1 l2 = all2 g l1 l2.
